@@ -907,7 +907,7 @@ def c21(tier):
     binp, binfo = build_driver()
     findings = C.load_findings()
     thorough = tier == "thorough"
-    # the design layer against the contract: Consuming = FALSE holds, Consuming = TRUE (the code) must not
+    # the design layer against the contract: PersistCursor = FALSE holds, PersistCursor = TRUE (the code, known finding) must not
     mc = mc_check("MC_LogStore.tla", "MC_LogStore_%s.cfg" % ("thorough" if thorough else "quick"), LS_DEPS,
                   "ls_%s" % tier, stutter_actions=("MCObserve",))
     defect = mc_check("MC_LogStore.tla", "MC_LogStore_defect.cfg", LS_DEPS, "ls_defect", workers=1, expect="violation")
@@ -928,7 +928,7 @@ def c21(tier):
     byid = {b["id"]: b for b in behs}
     cex_confirmed = not verd["tlc_shortest_cex"]["ok"]
     if not cex_confirmed:
-        print("MODEL-DRIFT: the design spec MC_LogStore (Consuming = TRUE) predicts a C21 violation for %s but the "
+        print("MODEL-DRIFT: the design spec MC_LogStore (PersistCursor = TRUE) predicts a C21 violation for %s but the "
               "real store conformed" % json.dumps(summarize(byid["tlc_shortest_cex"])["ops"]))
     if drift:
         print("MODEL-DRIFT: %d execution(s) observed something else than the design model (consuming replay) predicts" % drift)
